@@ -49,6 +49,13 @@ def _supplied(r, alg):
     else:
         d["suit-digest-bytes"] = r.randbytes(r.choice([1, 16, 31, 33, 64])).hex()
     c = r.random()
+    if c > 0.9:
+        # "the digest of that other envelope" (an inline minimal envelope): still not the digest of THIS content
+        d["suit-digest-bytes"] = {"envelope": {"SUIT_Envelope_Tagged": {
+            "suit-authentication-wrapper": {"SuitDigest": {"suit-digest-algorithm-id": "cose-alg-sha-256"}},
+            "suit-manifest": {"suit-manifest-version": 1, "suit-manifest-sequence-number": r.randrange(0, 1000),
+                              "suit-common": {}}}}}
+        return d
     if d["suit-digest-bytes"] and c < 0.3:
         # source forms of the digest language carrying the same disagreeing value
         if c < 0.18:
